@@ -63,6 +63,12 @@ pub fn case(idx: u64, seed: u64, p: &Params, o: &mut CaseOut) {
         fam = gen::sparse_family(&mut r);
     }
     let mut m = gen::family(&mut r, fam, n);
+    if n > max && r.chance(0.4) {
+        // sparse random arcs near the density where big components appear
+        let k = r.range(1, 3);
+        m = gen::sparse_random(&mut r, n, k);
+        fam = 0;
+    }
     let huge = p.usize("huge_per_100k", 60);
     if r.below(100_000) < huge {
         // deep recursion: a long circuit / path with a few extra arcs
@@ -86,6 +92,17 @@ pub fn case(idx: u64, seed: u64, p: &Params, o: &mut CaseOut) {
         4 => check(&build_w_usize(&m), &m, o),
         _ => {
             m = gen::sparsify(&mut r, &m);
+            if r.chance(0.15) {
+                // the largest legal vertex id
+                let top = *m.verts.iter().max().unwrap();
+                let big = if r.chance(0.7) { usize::MAX } else { usize::MAX - 1 };
+                let f = |v: usize| if v == top { big } else { v };
+                m = Model {
+                    verts: m.verts.iter().map(|&v| f(v)).collect(),
+                    arcs: m.arcs.iter().map(|(&(u, v), &w)| ((f(u), f(v)), w)).collect(),
+                };
+                o.bump("vertex_id_usize::MAX");
+            }
             check(&build_map_any(&m), &m, o);
         }
     }
